@@ -130,4 +130,5 @@ Fixpoint wf (n : nat) (ty : gotype) (v : value) : bool :=
 
 End Wf.
 
-Definition wfb (sch : schema) (T : string) (v : value) : bool := wf sch FUEL (TNamed T) v.
+(* a notation, not a definition: statements about [wfb] and about [wf _ FUEL] are syntactically the same *)
+Notation wfb sch T v := (wf sch FUEL (TNamed T) v) (only parsing).
